@@ -62,12 +62,12 @@ CLAIMS = {
               'path enumeration (exactly-once) + origin tracking + type-tag evaluation of setter closures',
               'DESIGN.md 5 C10'),
     'C11': _c('Structural clauses only: error item becomes the result (full drain), whole *args through the flattener, delegation table '
-              'name->statistics function, fnmatch roles, extremum seed, index alignment, empty selection exits. The numeric headline '
+              'name->statistics function, fnmatch roles and a constant table of wildcard criteria (whole cell, ? and *, line breaks), extremum seed, index alignment, empty selection exits. The numeric headline '
               '(aggregate = textbook statistic on all lists) is NOT decided.',
               'delegation-table agreement + role/dataflow rules + summary-list abstract interpretation',
               'DESIGN.md 5 C11'),
     'C12': _c('Predicate truth table over all type tags, derived predicates, parity complement over {0,1}, error conditions propagate, '
-              'truthiness and pairing of IF/IFS/SWITCH (a blank result or default is an argument like any other).',
+              'truthiness and pairing of IF/IFS/SWITCH (a blank result or default is an argument like any other; 2 and 2.0 are the same case).',
               'type-tag abstract interpretation + finite-quotient evaluation',
               'DESIGN.md 5 C12'),
     'C13': _c('Both date converters extracted as piecewise-affine maps with exact rationals: inverse, strictly monotone, Excel-1900 offset '
@@ -75,11 +75,11 @@ CLAIMS = {
               'piecewise-affine abstract interpretation + who-may-convert rule',
               'DESIGN.md 5 C13'),
     'C14': _c('Structural clauses only: accessor<->component, constructor roles, leap predicate over all residues mod 400, month-length '
-              'tables vs calendar, #NUM! guards, WEEKDAY numbering over 7x3, EDATE month arithmetic on 12x12 linear forms, DATEDIF y/m/ym component formulas, DAYS/DATEDIF(d) as the serial difference in order; dateutil.relativedelta modelled on date records. Other third-party date arithmetic NOT decided.',
+              'tables vs calendar, #NUM! guards, WEEKDAY numbering over 7x3, EDATE month arithmetic on 12x12 linear forms, DATEDIF y/m/ym component formulas, DAYS/DATEDIF(d) as the serial difference in order; constant ISO 8601 texts reach the text parser or fold to the written components; dateutil.relativedelta modelled on date records. Other third-party date arithmetic NOT decided.',
               'finite-quotient evaluation + table agreement + guard dominance',
               'DESIGN.md 5 C14'),
     'C15': _c('Structural clauses only: no negative-zero slice, negative counts rejected, SUBSTITUTE unchanged-exit independent of the '
-              'replacement, a find() position is tested for not-found before it bounds a slice, the k-th occurrence through find()/split() on instance numbers 1..3, tuple rows flattened like lists, joins over all flattened items in order. String-value algebra (idempotence etc.) NOT decided.',
+              'replacement, a find() position is tested for not-found before it bounds a slice, the k-th occurrence through find()/split() on instance numbers 1..3, no identity comparison of computed numbers or texts, tuple rows flattened like lists, joins over all flattened items in order. String-value algebra (idempotence etc.) NOT decided.',
               'guard dominance with interval facts + path-condition dependence + dataflow roles',
               'DESIGN.md 5 C15'),
     'C16': _c('Structural clauses only: delegation table name->math function, coercion+error guard dominates every use (sibling rule), '
@@ -88,16 +88,16 @@ CLAIMS = {
               'delegation-table agreement + guard dominance + polynomial normal form identity',
               'DESIGN.md 5 C16'),
     'C17': _c('Structural clauses only: documented domains enforced by dominating guards (interval facts), termination of loops, '
-              "the 40-bit two's-complement scheme as the piecewise-affine function HEX2DEC/DEC2HEX/DECIMAL compute over a symbolic integer, ROMAN/ARABIC numeral tables agree, one character per digit, a table of scale factors equals 10**i on its whole index range. "
+              "the 40-bit two's-complement scheme as the piecewise-affine function HEX2DEC/DEC2HEX/DECIMAL compute over a symbolic integer, ROMAN/ARABIC numeral tables agree, one character per digit, a table of scale factors equals 10**i on its whole index range, HEX2DEC(DEC2HEX(n)) = n folded on 22 constants. "
               'Rounding inequalities and round-trip values NOT decided.',
               'guard dominance with interval facts + piecewise-affine abstract interpretation + table agreement across siblings',
               'DESIGN.md 5 C17'),
     'C18': _c('Structural clauses only: no wrap-around indexing (index facts), out-of-range is an error, whole row/column on 0/omitted, '
-              'MATCH exact scan first-hit and #N/A exits, wildcard roles, MATCH +-1 on all 7 order types of x against three sorted symbolic items, text and fractional positions, alternatives of CHOOSE that are not addressed play no part. Arrays longer than the instance shapes NOT decided.',
+              'MATCH exact scan first-hit and #N/A exits, wildcard roles and a constant table of wildcard lookups, MATCH +-1 on all 7 order types of x against three sorted symbolic items, text and fractional positions, alternatives of CHOOSE that are not addressed play no part. Arrays longer than the instance shapes NOT decided.',
               'guard dominance with integer interval facts + path rules',
               'DESIGN.md 5 C18'),
     'C19': _c('Label regex language equals the label language (DFA over a 6-class alphabet with Python $ semantics), capture-group roles, '
-              'alphabet constant, exact integer arithmetic in the column and row converters, digit and carry of one step from the same dividend, row converters affine inverses, recomposition order, loop termination. Column converters mutually '
+              'alphabet constant, exact integer arithmetic in the column and row converters, digit and carry of one step from the same dividend, row converters affine inverses, recomposition order, loop termination, no shared mutable result (mutable default / empty module-level container handed out). Column converters mutually '
               'inverse (bijective base 26) NOT decided.',
               'regex-AST to DFA language equality + affine forms + dataflow roles',
               'DESIGN.md 5 C19'),
